@@ -157,7 +157,16 @@ func (d *dstate) isRemoteValueOn(p *core.Path, fn *ssa.Function, v ssa.Value) bo
 			}
 			return d.isEntryType(y.Type())
 		case *ssa.FreeVar:
-			return y.Parent() == fn && d.isEntryType(derefT(y.Type()))
+			if y.Parent() != fn {
+				return false
+			}
+			if d.isEntryType(derefT(y.Type())) {
+				return true
+			}
+			// a captured batch of entries (the updates that bear on one key, merged in one trie update)
+			if sl, ok := derefT(y.Type()).Underlying().(*types.Slice); ok && d.isEntryType(sl.Elem()) {
+				return true
+			}
 		}
 		return false
 	})
@@ -265,6 +274,12 @@ func (c *Ctx) ruleMergeTable(id string, d *dstate) {
 					if ia, ok := in.(*ssa.IndexAddr); ok {
 						if prm, ok := ia.X.(*ssa.Parameter); ok && prm.Parent() == f {
 							overPayload = true
+						}
+						// in a function literal: the captured batch of the enclosing routine
+						if prm, ok := core.Strip(ia.X).(*ssa.Parameter); ok && f.Parent() != nil && hasAncestor(f, prm.Parent()) {
+							if sl, isSl := prm.Type().Underlying().(*types.Slice); isSl && d.isEntryType(sl.Elem()) {
+								overPayload = true
+							}
 						}
 					}
 				}
@@ -386,6 +401,7 @@ func (c *Ctx) ruleMergeTable(id string, d *dstate) {
 				continue
 			}
 			present, presentKnown := false, false
+			var presenceIndex ssa.Value // the map whose look-up said whether the entry is present
 			outd, outdKnown := false, false
 			added, addedKnown, removed, removedKnown := false, false, false, false
 			keyEqSeen := false
@@ -403,6 +419,7 @@ func (c *Ctx) ruleMergeTable(id string, d *dstate) {
 				if ex, ok := v.(*ssa.Extract); ok && ex.Index == 1 {
 					if lk, ok := ex.Tuple.(*ssa.Lookup); ok && lk.CommaOk {
 						present, presentKnown = cd.Val, true
+						presenceIndex = lk.X
 					}
 				}
 				if cv, ok := v.(*ssa.Call); ok {
@@ -501,6 +518,25 @@ func (c *Ctx) ruleMergeTable(id string, d *dstate) {
 				}
 			default:
 				rows["absent"]++
+				// presence read from an index built beforehand from the list (positions := index(list)), inside a loop
+				// over several remote entries: the entry appended must be recorded in the index too, or a second update
+				// for the same key in the same batch is appended as well
+				if batch != nil && writes == 1 && presenceIndex != nil {
+					switch core.Strip(presenceIndex).(type) {
+					case *ssa.Call, *ssa.MakeMap:
+						if !batch.Blocks[indexDef(presenceIndex)] {
+							updated := false
+							for _, pi := range p.Instrs() {
+								if mu, ok := pi.In.(*ssa.MapUpdate); ok && core.Strip(mu.Map) == core.Strip(presenceIndex) {
+									updated = true
+								}
+							}
+							if !updated {
+								bad = "whether an entry is present is read from an index built before the loop over the remote entries, and the entry appended here is not recorded in it: a second update for the same key in the same batch is appended as well, and the older one stays listed — " + fmtPath(p, c.P)
+							}
+						}
+					}
+				}
 				if writes != 1 && !neither {
 					bad = fmt.Sprintf("a remote entry for a key that is not known locally is stored %d time(s), want 1 (additions and removals alike): a removal that arrives before the addition it supersedes is lost and the entry is resurrected — %s", writes, fmtPath(p, c.P))
 				}
@@ -534,6 +570,7 @@ func (c *Ctx) ruleMergeTable(id string, d *dstate) {
 		c.R.Fn(c.fname(m))
 		key := "batch loop of " + c.fname(m)
 		var loop *core.Loop
+		loopFn := m
 		for _, l := range core.Loops(m) {
 			for b := range l.Blocks {
 				for _, in := range b.Instrs {
@@ -544,9 +581,25 @@ func (c *Ctx) ruleMergeTable(id string, d *dstate) {
 			}
 		}
 		if loop == nil {
+			// the loop may sit in a function literal of the routine that captures the payload (the trie update callback
+			// merging, in one go, the entries that bear on one key)
+			for _, af := range m.AnonFuncs {
+				for _, l := range core.Loops(af) {
+					for b := range l.Blocks {
+						for _, in := range b.Instrs {
+							if ia, ok := in.(*ssa.IndexAddr); ok && core.Strip(ia.X) == ssa.Value(m.Params[pidx]) {
+								loop, loopFn = l, af
+							}
+						}
+					}
+				}
+			}
+		}
+		if loop == nil {
 			ru4.Fail(key, c.where(m, m), "the routine does not loop over its payload slice")
 			continue
 		}
+		m = loopFn
 		paths, err := core.EnumPaths(m, core.PathOpts{})
 		if err != nil {
 			ru4.Undecided(key, c.where(m, m), err.Error())
@@ -675,4 +728,12 @@ func (c *Ctx) upsertBodies(d *dstate) map[*ssa.Function]bool {
 		}
 	}
 	return m
+}
+
+// indexDef: the block in which the value (a map) comes to exist.
+func indexDef(v ssa.Value) *ssa.BasicBlock {
+	if in, ok := core.Strip(v).(ssa.Instruction); ok {
+		return in.Block()
+	}
+	return nil
 }
